@@ -6,7 +6,7 @@
 
 use super::common::*;
 use super::frames::*;
-use crate::snapshot::update_snapshot;
+use crate::snapshot::{store_history, update_snapshot};
 use crate::Jet1090;
 use rs1090::decode::adsb::ME;
 use rs1090::decode::{Message, SensorMetadata, TimedMessage, DF};
@@ -163,7 +163,9 @@ fn timed(r: &Rec, serial: u64) -> TimedMessage {
     }
 }
 
-/// Replay records on a fresh real table; returns icao24 -> serialised current snapshot
+/// Replay records on a fresh real table the way the decoder loop of `main()` does for every record - `update_snapshot`,
+/// then (history is kept by default) `store_history` with the record as it was handed on; returns icao24 -> serialised
+/// current snapshot, with the stored history of the entry (time stamp, message JSON) under `"~hist"`
 pub fn run_table(recs: &[&Rec]) -> Result<BTreeMap<String, Value>, String> {
     guarded(|| {
         let app = tokio::sync::Mutex::new(Jet1090::default());
@@ -171,9 +173,21 @@ pub fn run_table(recs: &[&Rec]) -> Result<BTreeMap<String, Value>, String> {
         for r in recs {
             let mut m = timed(r, 7);
             futures::executor::block_on(update_snapshot(&app, &mut m, &db));
+            let handed_on = TimedMessage { timestamp: m.timestamp, frame: m.frame.clone(), message: m.message.take(), metadata: m.metadata.clone(), decode_time: None, ..Default::default() };
+            futures::executor::block_on(store_history(&app, handed_on, &db));
         }
         let g = app.try_lock().expect("table is free");
-        g.state_vectors.iter().map(|(k, sv)| (k.clone(), serde_json::to_value(&sv.cur).expect("snapshot serialises"))).collect()
+        g.state_vectors
+            .iter()
+            .map(|(k, sv)| {
+                let mut v = serde_json::to_value(&sv.cur).expect("snapshot serialises");
+                let hist: Vec<Value> = sv.hist.iter().map(|h| json!([h.timestamp, serde_json::to_string(&h.message).unwrap_or_else(|e| format!("serialisation failed: {e}"))])).collect();
+                if let Some(o) = v.as_object_mut() {
+                    o.insert("~hist".into(), Value::Array(hist));
+                }
+                (k.clone(), v)
+            })
+            .collect()
     })
 }
 
@@ -381,6 +395,20 @@ fn judge_recs(recs: &[&Rec], witness: &Value, rep: &Report) -> usize {
                 }
             }
         }
+        // the stored history of the entry (what /track serves): every element is one of the aircraft's own records
+        if let Some(hist) = e.get("~hist").and_then(|h| h.as_array()) {
+            for h in hist {
+                let (ts, js) = (h[0].as_f64().unwrap_or(f64::NAN), h[1].as_str().unwrap_or(""));
+                if !own.iter().any(|r| r.ts == ts && r.solo == js) {
+                    let foreign = recs.iter().any(|r| r.solo == js);
+                    viol("provenance:history".into(), format!("{k}: the stored history holds a record (t={ts}) that is none of its own records{}: {}", if foreign { " (it is another aircraft's record)" } else { "" }, &js[..js.len().min(200)]));
+                    break;
+                }
+            }
+            if hist.len() > own.len() {
+                viol("history:more-than-records".into(), format!("{k}: {} stored history elements for {} records", hist.len(), own.len()));
+            }
+        }
         // projection equality: the entry after X's own records alone
         if expect.len() > 1 || recs.len() > own.len() {
             match run_table(own) {
@@ -531,7 +559,7 @@ pub fn run(ctx: &Ctx, rep: &Report) {
     for (ki, k) in all.kinds.iter().enumerate() {
         if let Some(r) = &all.recs[0][ki][0] {
             if let Ok(t) = run_table(&[r]) {
-                let set: Vec<String> = t.values().next().and_then(|e| e.as_object()).map(|o| o.iter().filter(|(f, v)| !v.is_null() && !matches!(f.as_str(), "icao24" | "firstseen" | "lastseen" | "count" | "metadata" | "registration")).map(|(f, _)| f.clone()).collect()).unwrap_or_default();
+                let set: Vec<String> = t.values().next().and_then(|e| e.as_object()).map(|o| o.iter().filter(|(f, v)| !v.is_null() && !matches!(f.as_str(), "icao24" | "firstseen" | "lastseen" | "count" | "metadata" | "registration" | "~hist")).map(|(f, _)| f.clone()).collect()).unwrap_or_default();
                 fields_touched.extend(set.iter().cloned());
                 effects.insert(k.to_string(), json!(set));
             }
